@@ -1,10 +1,14 @@
 use crate::eng::Tier;
+pub mod c01;
+pub mod c02;
 pub mod c09;
 pub mod c11;
 pub mod c12;
 
 pub fn run(prop: &str, tier: Tier, seed: u64) {
     match prop {
+        "C01" => c01::run(tier, seed),
+        "C02" => c02::run(tier, seed),
         "C09" => c09::run(tier, seed),
         "C11" => c11::run(tier, seed),
         "C12" => c12::run(tier, seed),
